@@ -65,7 +65,7 @@ namespace Strict
 open ExecM
 
 /-- `Value::from_nodes` (execution.rs:318-346) -/
-def fromNodes (q : Quant) (nodes : List Nat) : SM Val :=
+def fromNodes {σ : Type} (q : Quant) (nodes : List Nat) : ExecM σ Val :=
   match q with
   | .zero => panicAt "from_nodes:unreachable"
   | .one =>
